@@ -13,7 +13,7 @@
               source to its PDU base (expected count 0 + fixture control).
 Not decided: deep equality of field values of copies.
 """
-from vlib import facts, cfg
+from vlib import facts, cfg, cond
 from vlib.facts import strip
 
 PID = "C12"
@@ -59,7 +59,7 @@ def owners(db):
     return out
 
 
-def fresh_value(db, f, e, field):
+def fresh_value(db, f, e, field, depth=0):
     """does expression e produce a fresh (uniquely owned) object or null?
     returns (True, why) / (False, why)"""
     e0 = strip(e)
@@ -71,11 +71,21 @@ def fresh_value(db, f, e, field):
     if k == "CXXMemberCallExpr" and e0.get("cname") == "clone":
         return True, "clone()"
     if k == "ConditionalOperator":
-        a, wa = fresh_value(db, f, e0["c"][1], field)
-        b, wb = fresh_value(db, f, e0["c"][2], field)
+        a, wa = fresh_value(db, f, e0["c"][1], field, depth)
+        b, wb = fresh_value(db, f, e0["c"][2], field, depth)
         return (a and b), "%s : %s" % (wa, wb)
     if k in ("CStyleCastExpr", "CXXStaticCastExpr"):
-        return fresh_value(db, f, e0["c"][0], field)
+        return fresh_value(db, f, e0["c"][0], field, depth)
+    if k in ("CallExpr", "CXXMemberCallExpr") and e0.get("callee") and not e0.get("ext") and depth < 3:
+        # a library helper every return of which is fresh (`static PDU* clone_or_null(const PDU* p)`)
+        h = db.fn(e0["callee"])
+        if h is not None and h.get("body") and h is not f:
+            rets = [x for x in facts.fn_nodes(h) if x["k"] == "ReturnStmt" and x.get("c")]
+            if rets:
+                res = [fresh_value(db, h, x["c"][0], field, depth + 1) for x in rets]
+                if all(r_[0] for r_ in res):
+                    return True, "%s(): %s" % (h["name"], " / ".join(sorted(set(r_[1] for r_ in res))))
+                return False, "%s() may return %s" % (h["name"], [r_[1] for r_ in res if not r_[0]][0])
     if k == "DeclRefExpr" and not e0.get("parm") and not e0.get("glob") and e0.get("var"):
         # a local initialised once from a fresh value
         init = None
@@ -85,7 +95,7 @@ def fresh_value(db, f, e, field):
             if n["k"] == "BinaryOperator" and n["op"] == "=" and strip(n["c"][0]).get("var") == e0["var"]:
                 return False, "local %s reassigned" % e0["name"]
         if init is not None:
-            return fresh_value(db, f, init, field)
+            return fresh_value(db, f, init, field, depth)
     return False, facts.expr_str(e0)
 
 
@@ -255,8 +265,9 @@ def check_special(db, rep, rec, field, kind, f, key):
         return
     if kind == "move_ctor":
         # the source's pointer must be null afterwards: assigned null, or swapped with our null-initialised member
+        # (in the constructor itself or in a member helper that is handed the source)
         src_nulled = False
-        for n in facts.fn_nodes(f):
+        for fn_, n in with_source_helpers(db, f):
             if n["k"] == "BinaryOperator" and n["op"] == "=" and param_field(f, n["c"][0], field) and is_null(n["c"][1]):
                 src_nulled = True
             if n["k"] == "CallExpr" and n.get("cname") == "swap" and len(n["c"]) == 3:
@@ -328,13 +339,13 @@ def check_special(db, rep, rec, field, kind, f, key):
         return
     if kind == "move_assign":
         problems = []
-        swaps = [(n, v) for n, v, how in st if how == "swap"]
+        helpers = set(id(fn_) for fn_, _ in with_source_helpers(db, f))
+        st_all = list(st)
+        for fn_ in [x for x in db.functions.values() if id(x) in helpers and x is not f]:
+            st_all += stores_to(fn_, field)
+        swaps = [(n, v) for n, v, how in st_all if how == "swap"]
         dels = [n for n in facts.fn_nodes(f) if n["k"] == "CXXDeleteExpr" and this_field(n["c"][0], field)]
-        assigns_from_src = []
-        for n in facts.fn_nodes(f):
-            if n["k"] == "BinaryOperator" and n["op"] == "=" and this_field(n["c"][0], field):
-                assigns_from_src.append(n)
-        src_writes = [n for n in facts.fn_nodes(f) if n["k"] == "BinaryOperator" and n["op"] == "=" and param_field(f, n["c"][0], field)]
+        src_writes = [n for fn_, n in with_source_helpers(db, f) if n["k"] == "BinaryOperator" and n["op"] == "=" and param_field(f, n["c"][0], field)]
         if not swaps and not (dels or src_writes):
             problems.append("move assignment neither swaps nor releases the old object")
         # the source must not keep our new pointer: swap or explicit write of rhs.field, or a releasing call
@@ -347,6 +358,23 @@ def check_special(db, rep, rec, field, kind, f, key):
         else:
             rep.ok("R1-special", key, site, "old value released or swapped into the source; source does not keep the moved pointer")
         return
+
+
+def with_source_helpers(db, f):
+    """(function, node) for every node of f and of the member helpers f calls on this object with its own (source) parameter
+    as an argument: `take_from(rhs)` is part of the move it was extracted from"""
+    out = [(f, n) for n in facts.fn_nodes(f)]
+    for n in facts.fn_nodes(f):
+        if n["k"] == "CXXMemberCallExpr" and n.get("callee"):
+            r = cfg.receiver(n)
+            if r is None or strip(r)["k"] != "CXXThisExpr":
+                continue
+            if not any(facts.strip_all(a)["k"] == "DeclRefExpr" and facts.strip_all(a).get("parm") for a in cfg.args(n)):
+                continue
+            h = db.fn(n["callee"])
+            if h is not None and h.get("body") and h is not f and len(h.get("params", ())) == len(cfg.args(n)):
+                out += [(h, x) for x in facts.fn_nodes(h)]
+    return out
 
 
 def op_of(c):
@@ -428,20 +456,30 @@ def r2(db, rep):
         g = cfg.FnCFG(f)
         clears = [n for n in facts.fn_nodes(f) if n["k"] == "CXXMemberCallExpr" and n.get("cname") == "parent_pdu"
                   and cfg.args(n) and is_null(cfg.args(n)[0])]
-        rets = [n for n in facts.fn_nodes(f) if n["k"] == "ReturnStmt"]
-        ok = False
-        if clears and rets:
-            rcv = cfg.receiver(clears[0])
-            rv = strip(rets[0]["c"][0]) if rets[0].get("c") else None
-            if rcv is not None and rv is not None and strip(rcv).get("var") and strip(rcv).get("var") == facts.strip_all(rv).get("var"):
-                # on every path to the return either the clear happened or the result is null (guard)
-                skip = set()
-                for b in g.blocks.values():
-                    c = g.idx.get(b.get("cond")) if b.get("cond") is not None else None
-                    if c is not None and len(b["s"]) == 2 and strip(c)["k"] == "DeclRefExpr" and strip(c).get("var") == strip(rcv).get("var"):
-                        skip.add((b["id"], 1))
-                w = g.reaches_exit_avoiding((g.entry, -1), [g.pos(clears[0])], skip_edges=skip)
-                ok = w is None
+        rets = [n for n in facts.fn_nodes(f) if n["k"] == "ReturnStmt" and n.get("c") and not is_null(n["c"][0])]
+        ok = bool(clears and rets)
+        for r_ in rets:
+            # every path to a return of a (possibly non-null) child passes the clear of THAT child's parent link, except
+            # over edges on which the child is known to be null (`if (c)` false edge, `if (!c)` / `c == 0` true edge)
+            rv = facts.strip_all(r_["c"][0])
+            mine = [c_ for c_ in clears if cfg.receiver(c_) is not None and strip(cfg.receiver(c_)).get("var") and
+                    strip(cfg.receiver(c_)).get("var") == rv.get("var")]
+            if rv["k"] != "DeclRefExpr" or not mine:
+                ok = False
+                break
+            skip = set()
+            for b_ in g.blocks.values():
+                c = g.idx.get(b_.get("cond")) if b_.get("cond") is not None else None
+                if c is None or len(b_["s"]) != 2:
+                    continue
+                c0, neg = cond.peel(c)
+                if c0["k"] == "BinaryOperator" and c0.get("op") in ("==", "!=") and (is_null(c0["c"][1]) or facts.cval(c0["c"][1]) == 0):
+                    neg = neg != (c0["op"] == "==")
+                    c0 = strip(c0["c"][0])
+                if c0["k"] == "DeclRefExpr" and c0.get("var") == rv.get("var"):
+                    skip.add((b_["id"], 0 if neg else 1))
+            if g.reached_from_entry_avoiding(g.pos(r_), [g.pos(c_) for c_ in mine], skip_edges=skip) is not None:
+                ok = False
         n_sites += 1
         if ok:
             rep.ok("R2-parent", "release_inner_pdu:clears-parent", facts.loc(f), "released child's parent link set to null on every path where it is non-null")
